@@ -111,3 +111,14 @@ def rand_model(rng, T, n=None, maxdeg=None, coefs=None, raw=False, lo=0, hi=6):
 
 def sort_labels(labs):
     return sorted(labs, key=lambda x: (str(type(x)), x if not isinstance(x, tuple) else repr(x)))
+
+
+def fresh_like(l0, i):
+    """a label that does not occur in any pool and can be ordered against l0 (labels of one key must be mutually orderable)"""
+    if isinstance(l0, str):
+        return "nv%d" % i
+    if isinstance(l0, tuple):
+        return tuple((1000 + i) if isinstance(x, (int, float)) and not isinstance(x, bool) else ("nv%d" % i if isinstance(x, str) else x) for x in l0)
+    if isinstance(l0, float):
+        return 1000.5 + i
+    return 1000 + i
